@@ -1,7 +1,9 @@
 (* Proofs about Graph::add_operator and Graph::forward (C05). *)
 From Coq Require Import List NArith Bool Arith Lia.
-From PV Require Import Graph.OpFamily Graph.Tape Graph.Lazy.
+From PV Require Import Graph.OpFamily Graph.Tape Graph.Lazy Graph.TapeLemmas.
 Import ListNotations.
+Local Open Scope N_scope.
+Local Open Scope nat_scope.
 
 Section LazyProofs.
   Context {Op Sh V : Type}.
@@ -10,6 +12,7 @@ Section LazyProofs.
   Notation opinfo := (@opinfo Op Sh V).
   Notation slot := (@slot Sh V).
   Notation env := (@env V).
+  Notation ops_t := (list opinfo).
 
   (* ---------- add_operator computes nothing ---------- *)
   Lemma add_op_spec me (g g' : gstate) o args k :
@@ -29,5 +32,535 @@ Section LazyProofs.
     eexists. split; [reflexivity|]. cbn [o_op o_args o_rets]. repeat split; auto.
     - apply Forall_forall. intros s Hs. apply in_map_iff in Hs. destruct Hs as (sh & <- & _). auto.
     - exists ss, rs. repeat split; auto. rewrite map_map. cbn [s_shape]. apply map_id.
+  Qed.
+
+  (* ---------- vocabulary ---------- *)
+  (* what a consumer reads for argument a: the memoised value, or the LIVE parameter value *)
+  Definition aread (ops : ops_t) (e : env) (a : nat * nat) : option V :=
+    match nth_error ops (fst a) with
+    | Some oi => match f_inner F (o_op oi) with
+                 | Some p => Some (e_pval e p)
+                 | None => match nth_error (o_rets oi) (snd a) with Some s => s_val s | None => None end
+                 end
+    | None => None
+    end.
+  (* units of device d's stream consumed by the operators in l *)
+  Definition draw_of (ops : ops_t) (d k : nat) : N :=
+    match nth_error ops k with
+    | Some oi => match f_rand F (o_op oi) with
+                 | Some (d', n) => if Nat.eqb d' d then n else 0%N
+                 | None => 0%N
+                 end
+    | None => 0%N
+    end.
+  Fixpoint draws (ops : ops_t) (d : nat) (l : list nat) : N :=
+    match l with [] => 0%N | k :: r => (draw_of ops d k + draws ops d r)%N end.
+  (* operator k holds exactly the outputs of ONE call of its forward on what consumers read *)
+  Definition computed (ops : ops_t) (e : env) (k : nat) : Prop :=
+    exists oi pos xs, nth_error ops k = Some oi /\
+      Forall2 (fun a x => aread ops e a = Some x) (o_args oi) xs /\
+      map s_val (o_rets oi) = map Some (f_fw F (o_op oi) pos xs) /\
+      (f_rand F (o_op oi) = None -> pos = 0%N).
+
+  Definition mono (ops ops' : ops_t) : Prop :=
+    forall a s v, get_slot_ops ops a = Some s -> s_val s = Some v ->
+      exists s', get_slot_ops ops' a = Some s' /\ s_val s' = Some v.
+
+  (* the effect of one forward() (or of a sequence of them) asked for the operators [roots] *)
+  Definition frel (g : gstate) (e : env) (g' : gstate) (e' : env) (roots : list nat) : Prop :=
+    sv (g_ops g') = sv (g_ops g) /\ g_blog g' = g_blog g /\
+    e_pval e' = e_pval e /\ e_pgrad e' = e_pgrad e /\
+    mono (g_ops g) (g_ops g') /\
+    exists new, g_log g' = g_log g ++ new /\ NoDup new /\
+      (forall k, In k new -> (exists r, In r roots /\ anc (g_ops g) k r) /\ inner_of F (g_ops g) k = None /\
+                             unev (g_ops g) k /\ evald (g_ops g') k /\ computed (g_ops g') e k) /\
+      (forall k, ~ In k new -> nth_error (g_ops g') k = nth_error (g_ops g) k) /\
+      (forall d, e_pos e' d = (e_pos e d + draws (g_ops g) d new)%N).
+
+  Lemma frel_refl g e roots : frel g e g e roots.
+  Proof.
+    unfold frel. split; [reflexivity|]. split; [reflexivity|]. split; [reflexivity|]. split; [reflexivity|].
+    split. { intros a s v H1 H2; eauto. }
+    exists []. rewrite app_nil_r. split; [reflexivity|]. split; [constructor|]. split; [intros k []|].
+    split; [reflexivity|]. intro d. simpl. lia.
+  Qed.
+
+  Lemma draws_app ops d l1 l2 : draws ops d (l1 ++ l2) = (draws ops d l1 + draws ops d l2)%N.
+  Proof. induction l1 as [|k l1 IH]; simpl; [lia|]. rewrite IH. lia. Qed.
+  Lemma draws_sv ops ops' d l : sv ops = sv ops' -> draws ops d l = draws ops' d l.
+  Proof.
+    intros H. induction l as [|k l IH]; simpl; auto. rewrite IH. f_equal.
+    unfold draw_of. pose proof (sv_nth ops ops' k H) as Hk.
+    destruct (nth_error ops k), (nth_error ops' k); try contradiction; auto. destruct Hk as (E & _). rewrite E. reflexivity.
+  Qed.
+
+  Lemma mono_aread ops ops' e e' a x : sv ops' = sv ops -> mono ops ops' -> e_pval e' = e_pval e ->
+    aread ops e a = Some x -> aread ops' e' a = Some x.
+  Proof.
+    intros Hsv Hm Hp. unfold aread. pose proof (sv_nth ops' ops (fst a) Hsv) as Hk.
+    destruct (nth_error ops (fst a)) as [oi|] eqn:E; [|discriminate].
+    destruct (nth_error ops' (fst a)) as [oi'|] eqn:E'; [|contradiction]. destruct Hk as (Eo & _). rewrite Eo.
+    destruct (f_inner F (o_op oi)); [rewrite Hp; auto|].
+    destruct (nth_error (o_rets oi) (snd a)) as [s|] eqn:Es; [|discriminate]. intros Hv.
+    destruct (Hm a s x) as (s' & Hg & Hv'); auto. { unfold get_slot_ops. rewrite E. exact Es. }
+    unfold get_slot_ops in Hg. rewrite E' in Hg. rewrite Hg. exact Hv'.
+  Qed.
+
+  Lemma computed_mono ops ops' e e' k : sv ops' = sv ops -> mono ops ops' -> e_pval e' = e_pval e ->
+    (nth_error ops' k = nth_error ops k \/ evald ops k) ->
+    computed ops e k -> computed ops' e' k.
+  Proof.
+    intros Hsv Hm Hp Hk (oi & pos & xs & E & Hx & Hv & Hr).
+    assert (Hx' : Forall2 (fun a x => aread ops' e' a = Some x) (o_args oi) xs).
+    { eapply Forall2_impl; [|exact Hx]. intros a x Hax. eapply mono_aread; eauto. }
+    destruct Hk as [Hk|Hk].
+    - exists oi, pos, xs. rewrite Hk. auto.
+    - pose proof (sv_nth ops' ops k Hsv) as Hs. rewrite E in Hs.
+      destruct (nth_error ops' k) as [oi'|] eqn:E'; [|contradiction]. destruct Hs as (Eo & Ea & El & Em).
+      exists oi', pos, xs. rewrite Eo, Ea. repeat split; auto.
+      (* all values of oi are Some, so they persist slot by slot *)
+      rewrite <- Hv. apply list_ext. intro j. rewrite !nth_error_map.
+      destruct (nth_error (o_rets oi') j) as [s'|] eqn:Ej; destruct (nth_error (o_rets oi) j) as [s|] eqn:Ej0; simpl; auto.
+      2:{ apply nth_error_None in Ej0. apply nth_error_lt in Ej. lia. }
+      2:{ apply nth_error_None in Ej. apply nth_error_lt in Ej0. lia. }
+      f_equal. destruct (s_val s) as [v|] eqn:Evs.
+      + destruct (Hm (k, j) s v) as (s2 & Hg & Hv2); auto. { unfold get_slot_ops; simpl. rewrite E. exact Ej0. }
+        unfold get_slot_ops in Hg; simpl in Hg. rewrite E' in Hg. congruence.
+      + exfalso. destruct Hk as (oi0 & E0 & _ & Hd). rewrite E in E0. injection E0 as <-.
+        unfold op_done in Hd. rewrite forallb_forall in Hd. specialize (Hd s (nth_error_In _ _ Ej0)).
+        unfold has_val in Hd. rewrite Evs in Hd. discriminate.
+  Qed.
+
+  Lemma frel_evald g e g' e' roots k : frel g e g' e' roots -> evald (g_ops g) k -> evald (g_ops g') k.
+  Proof.
+    intros (Hsv & _ & _ & _ & Hm & new & _ & _ & Hin & Hout & _) Hev.
+    destruct (in_dec Nat.eq_dec k new) as [Hk|Hk]; [apply Hin; auto|].
+    destruct Hev as (oi & E & Hn & Hd). exists oi. rewrite Hout; auto.
+  Qed.
+
+  Lemma frel_trans g e g1 e1 g2 e2 R1 R2 R :
+    frel g e g1 e1 R1 -> frel g1 e1 g2 e2 R2 ->
+    (forall r, In r R1 -> exists r', In r' R /\ anc (g_ops g) r r') ->
+    (forall r, In r R2 -> exists r', In r' R /\ anc (g_ops g) r r') ->
+    frel g e g2 e2 R.
+  Proof.
+    intros H1 H2 C1 C2. pose proof (fun k => frel_evald g1 e1 g2 e2 R2 k H2) as Hev2.
+    destruct H1 as (Hsv1 & Hb1 & Hp1 & Hg1 & Hm1 & new1 & L1 & N1 & I1 & O1 & D1).
+    pose proof H2 as H2'.
+    destruct H2 as (Hsv2 & Hb2 & Hp2 & Hg2 & Hm2 & new2 & L2 & N2 & I2 & O2 & D2).
+    assert (Hdisj : forall x, In x new1 -> ~ In x new2).
+    { intros x Hx1 Hx2. destruct (I1 x Hx1) as (_ & _ & _ & Hev & _). destruct (I2 x Hx2) as (_ & _ & Hun & _).
+      eapply evald_unev; eauto. }
+    split; [congruence|]. split; [congruence|]. split; [congruence|]. split; [congruence|]. split.
+    { intros a s v Hs Hv. destruct (Hm1 a s v Hs Hv) as (s1 & Hs1 & Hv1). eauto. }
+    exists (new1 ++ new2). split; [rewrite L2, L1, app_assoc; reflexivity|]. split; [apply nodup_app; auto|]. split; [|split].
+    - intros k Hk. apply in_app_or in Hk. destruct Hk as [Hk|Hk].
+      + destruct (I1 k Hk) as ((r & Hr & Ha) & Hi & Hu & Hev & Hc). split; [|split; [exact Hi|split; [exact Hu|split]]].
+        * destruct (C1 r Hr) as (r' & Hr' & Ha'). exists r'. split; auto. eapply anc_trans; eauto.
+        * apply Hev2; auto.
+        * apply (computed_mono (g_ops g1) (g_ops g2) e e); auto.
+      + destruct (I2 k Hk) as ((r & Hr & Ha) & Hi & Hu & Hev & Hc).
+        assert (Hk1 : ~ In k new1) by (intro Hx; exact (Hdisj k Hx Hk)).
+        split; [|split; [|split; [|split]]].
+        * destruct (C2 r Hr) as (r' & Hr' & Ha'). exists r'. split; auto. eapply anc_trans; eauto. eapply sv_anc; eauto.
+        * rewrite <- Hi. symmetry. apply sv_inner. exact Hsv1.
+        * destruct Hu as (oi & E & Hn & Hu). exists oi. rewrite <- O1; auto.
+        * exact Hev.
+        * destruct Hc as (oi & pos & xs & E & Hx & Hv & Hr0). exists oi, pos, xs. repeat split; auto.
+          eapply Forall2_impl; [|exact Hx]. intros a x. unfold aread. rewrite Hp1. auto.
+    - intros k Hk. rewrite O2, O1; auto; intro; apply Hk, in_or_app; auto.
+    - intro d. rewrite D2, D1, draws_app. rewrite (draws_sv (g_ops g1) (g_ops g) d new2 Hsv1). lia.
+  Qed.
+
+  (* ---------- the invariant of every reachable graph ---------- *)
+  (* contract of the operator family: forward assigns all its outputs *)
+  Hypothesis Hfw_len : forall o pos xs, length (f_fw F o pos xs) = f_retn F o.
+
+  Definition ginv (ops : ops_t) : Prop :=
+    wf_ops ops /\
+    (forall k oi, nth_error ops k = Some oi -> length (o_rets oi) = f_retn F (o_op oi)) /\
+    (forall k oi, nth_error ops k = Some oi ->
+       (op_done oi = true \/ op_none oi = true) /\ (f_inner F (o_op oi) <> None -> op_none oi = true)) /\
+    (forall k oi, nth_error ops k = Some oi -> o_rets oi <> [] -> op_done oi = true ->
+       forall a, In a (o_args oi) -> inner_of F ops (fst a) = None -> evald ops (fst a)) /\
+    (forall k oi, nth_error ops k = Some oi -> f_inner F (o_op oi) <> None -> o_args oi = []).
+
+  Lemma store_vals_full (rets : list slot) outs : length outs = length rets ->
+    map s_val (store_vals rets outs) = map Some outs /\
+    map (fun s => set_val s None) (store_vals rets outs) = map (fun s => set_val s None) rets /\
+    length (store_vals rets outs) = length rets.
+  Proof.
+    revert outs; induction rets as [|s r IH]; intros [|v outs] H; simpl in *; try lia; auto.
+    destruct (IH outs) as (A & B & C); [lia|]. rewrite A, B, C. auto.
+  Qed.
+
+  Lemma op_none_val (oi : opinfo) j s : op_none oi = true -> nth_error (o_rets oi) j = Some s -> s_val s = None.
+  Proof.
+    unfold op_none. rewrite forallb_forall. intros H Hj. specialize (H s (nth_error_In _ _ Hj)).
+    unfold has_val in H. destruct (s_val s); [discriminate|reflexivity].
+  Qed.
+  Lemma op_done_val (oi : opinfo) j s : op_done oi = true -> nth_error (o_rets oi) j = Some s -> s_val s <> None.
+  Proof.
+    unfold op_done. rewrite forallb_forall. intros H Hj. specialize (H s (nth_error_In _ _ Hj)).
+    unfold has_val in H. destruct (s_val s); [discriminate|discriminate].
+  Qed.
+
+  (* evaluating one unevaluated operator whose arguments are readable *)
+  Lemma eval_step (ops1 : ops_t) (e1 : env) i cur1 vs pos :
+    ginv ops1 -> nth_error ops1 i = Some cur1 -> f_inner F (o_op cur1) = None ->
+    op_none cur1 = true -> o_rets cur1 <> [] ->
+    Forall2 (fun a x => aread ops1 e1 a = Some x) (o_args cur1) vs ->
+    (forall a, In a (o_args cur1) -> inner_of F ops1 (fst a) = None -> evald ops1 (fst a)) ->
+    (f_rand F (o_op cur1) = None -> pos = 0%N) ->
+    let ops2 := set_nth ops1 i (set_rets cur1 (store_vals (o_rets cur1) (f_fw F (o_op cur1) pos vs))) in
+    sv ops2 = sv ops1 /\ mono ops1 ops2 /\ ginv ops2 /\ evald ops2 i /\ computed ops2 e1 i /\
+    (forall k, k <> i -> nth_error ops2 k = nth_error ops1 k) /\
+    (forall j v, nth_error (f_fw F (o_op cur1) pos vs) j = Some v -> aread ops2 e1 (i, j) = Some v).
+  Proof.
+    intros (Hwf & Hlen & Hdich & Hclosed & Hinarg) Ei Hin Hnone Hne Hxs Hargs Hpos ops2.
+    set (outs := f_fw F (o_op cur1) pos vs) in *.
+    assert (Hlo : length outs = length (o_rets cur1)) by (unfold outs; rewrite Hfw_len; symmetry; eauto).
+    destruct (store_vals_full (o_rets cur1) outs Hlo) as (SV & SS & SL).
+    assert (Hi : i < length ops1) by (eapply nth_error_lt; eauto).
+    assert (E2 : nth_error ops2 i = Some (set_rets cur1 (store_vals (o_rets cur1) outs))) by (apply nth_error_set_nth_eq; auto).
+    assert (Hoth : forall k, k <> i -> nth_error ops2 k = nth_error ops1 k) by (intros k Hk; apply nth_error_set_nth_neq; auto).
+    assert (Hsv : sv ops2 = sv ops1).
+    { unfold sv, ops2. rewrite map_set_nth. apply set_nth_same. rewrite nth_error_map, Ei. simpl. f_equal.
+      unfold strip_vals. cbn [o_rets set_rets o_op o_args]. rewrite SS. reflexivity. }
+    assert (Hmono : mono ops1 ops2).
+    { intros a s v Hs Hv. unfold get_slot_ops in *. destruct (Nat.eq_dec (fst a) i) as [Ea|Na].
+      - rewrite Ea, Ei in Hs. rewrite (op_none_val cur1 (snd a) s Hnone Hs) in Hv. discriminate.
+      - rewrite Hoth by auto. eauto. }
+    assert (Hdone2 : op_done (set_rets cur1 (store_vals (o_rets cur1) outs)) = true).
+    { unfold op_done. cbn [o_rets set_rets]. apply forallb_forall. intros s Hs.
+      apply (in_map s_val) in Hs. rewrite SV in Hs. apply in_map_iff in Hs. destruct Hs as (v & Hv & _).
+      unfold has_val. rewrite <- Hv. reflexivity. }
+    assert (Hev2 : evald ops2 i).
+    { eexists. split; [exact E2|]. split; [|exact Hdone2]. cbn [o_rets set_rets]. intro Hnil.
+      apply (f_equal (@length _)) in Hnil. rewrite SL in Hnil. destruct (o_rets cur1); [congruence|discriminate]. }
+    assert (Hargs_lt : forall a, In a (o_args cur1) -> fst a <> i).
+    { intros a Ha. pose proof (Hwf i cur1 Ei) as Hf. rewrite Forall_forall in Hf. destruct (Hf a Ha). lia. }
+    assert (Hev_mono : forall k, evald ops1 k -> evald ops2 k).
+    { intros k (oi & E & Hn & Hd). destruct (Nat.eq_dec k i) as [->|Hk]; [exact Hev2|]. exists oi. rewrite Hoth; auto. }
+    split; [exact Hsv|]. split; [exact Hmono|]. split; [|split; [exact Hev2|split; [|split; [exact Hoth|]]]].
+    - split; [eapply sv_wf; [symmetry; exact Hsv|exact Hwf]|]. split; [|split; [|split]].
+      4:{ intros k oi E Hi'. destruct (Nat.eq_dec k i) as [->|Hk].
+          - rewrite E2 in E. injection E as <-. cbn [o_op set_rets] in Hi'. congruence.
+          - rewrite Hoth in E by auto. eauto. }
+      + intros k oi E. destruct (Nat.eq_dec k i) as [->|Hk].
+        * rewrite E2 in E. injection E as <-. cbn [o_rets set_rets o_op]. rewrite SL. eauto.
+        * rewrite Hoth in E by auto. eauto.
+      + intros k oi E. destruct (Nat.eq_dec k i) as [->|Hk].
+        * rewrite E2 in E. injection E as <-. split; [left; exact Hdone2|]. cbn [o_op set_rets]. congruence.
+        * rewrite Hoth in E by auto. eauto.
+      + intros k oi E Hn Hd a Ha Hia. rewrite (sv_inner F _ _ Hsv) in Hia.
+        destruct (Nat.eq_dec k i) as [->|Hk].
+        * rewrite E2 in E. injection E as <-. cbn [o_args set_rets] in Ha. apply Hev_mono. apply Hargs; auto.
+        * rewrite Hoth in E by auto. apply Hev_mono. eapply Hclosed; eauto.
+    - exists (set_rets cur1 (store_vals (o_rets cur1) outs)), pos, vs. split; [exact E2|]. cbn [o_args o_rets o_op set_rets].
+      split; [|split; [exact SV|exact Hpos]].
+      assert (Hin2 : forall a, In a (o_args cur1) -> aread ops2 e1 a = aread ops1 e1 a).
+      { intros a Ha. unfold aread. rewrite Hoth by (apply Hargs_lt; auto). reflexivity. }
+      eapply Forall2_impl_In; [|exact Hxs]. intros a x Ha Hax. cbv beta. rewrite Hin2; auto.
+    - intros j v Hj. unfold aread. cbn [fst snd]. rewrite E2. cbn [o_op o_rets set_rets]. rewrite Hin.
+      assert (Hm : nth_error (map s_val (store_vals (o_rets cur1) outs)) j = Some (Some v)) by (rewrite SV, nth_error_map; fold outs in Hj; rewrite Hj; reflexivity).
+      rewrite nth_error_map in Hm. destruct (nth_error (store_vals (o_rets cur1) outs) j); simpl in Hm; congruence.
+  Qed.
+
+  Definition go_args (fu : nat) :=
+    fix go (l : list (nat * nat)) (g : gstate) (e : env) : option (list V * gstate * env) :=
+      match l with
+      | [] => Some ([], g, e)
+      | x :: l' => match fwd F fu g e x with
+                   | None => None
+                   | Some (v, g1, e1) => match go l' g1 e1 with
+                                         | None => None
+                                         | Some (vs, g2, e2) => Some (v :: vs, g2, e2)
+                                         end
+                   end
+      end.
+
+  Lemma aread_pval ops (e e' : env) a : e_pval e = e_pval e' -> aread ops e a = aread ops e' a.
+  Proof. intros H. unfold aread. rewrite H. reflexivity. Qed.
+
+  (* post-condition of forward requests for the nodes [roots], returning [vs] *)
+  Definition fpost (g : gstate) (e : env) (g' : gstate) (e' : env) (roots : list (nat * nat)) (vs : list V) : Prop :=
+    frel g e g' e' (map fst roots) /\ ginv (g_ops g') /\
+    Forall2 (fun a x => aread (g_ops g') e a = Some x) roots vs /\
+    (forall a, In a roots -> inner_of F (g_ops g) (fst a) = None -> evald (g_ops g') (fst a)).
+
+  Lemma fpost_cons g e g1 e1 g2 e2 x v l vs :
+    fpost g e g1 e1 [x] [v] -> fpost g1 e1 g2 e2 l vs -> fpost g e g2 e2 (x :: l) (v :: vs).
+  Proof.
+    intros (R1 & I1 & A1 & E1) (R2 & I2 & A2 & E2).
+    assert (Hp1 : e_pval e1 = e_pval e) by (destruct R1 as (_ & _ & Hp & _); exact Hp).
+    assert (Hsv1 : sv (g_ops g1) = sv (g_ops g)) by (destruct R1 as (Hs & _); exact Hs).
+    split; [|split; [exact I2|split]].
+    - eapply frel_trans; [exact R1|exact R2| |]; simpl; intros r Hr; exists r; split; auto using anc_refl.
+      destruct Hr as [Hr|[]]; auto.
+    - constructor.
+      + inversion A1 as [|? ? ? ? Hx _]; subst. destruct R2 as (Hs2 & _ & _ & _ & Hm2 & _).
+        eapply mono_aread; eauto.
+      + eapply Forall2_impl; [|exact A2]. intros a y. cbv beta. rewrite (aread_pval _ e1 e); auto.
+    - intros a [<-|Ha] Hi.
+      + eapply frel_evald; [exact R2|]. apply E1; [left; reflexivity|exact Hi].
+      + apply E2; auto. rewrite (sv_inner F _ _ Hsv1). exact Hi.
+  Qed.
+
+  Lemma fwd_spec fuel : forall g e a v g' e', ginv (g_ops g) ->
+    fwd F fuel g e a = Some (v, g', e') -> fpost g e g' e' [a] [v].
+  Proof.
+    induction fuel as [|fu IH]; intros g e a v g' e' Hinv H; [discriminate|].
+    cbn [fwd] in H. fold (go_args fu) in H.
+    destruct (nth_error (g_ops g) (fst a)) as [cur|] eqn:Ecur; [|discriminate].
+    destruct (f_inner F (o_op cur)) as [p|] eqn:Ein.
+    { injection H as <- <- <-. split; [apply frel_refl|]. split; [exact Hinv|]. split.
+      - constructor; [|constructor]. unfold aread. rewrite Ecur, Ein. reflexivity.
+      - intros a0 [<-|[]] Hi. unfold inner_of in Hi. rewrite Ecur, Ein in Hi. discriminate. }
+    destruct (nth_error (o_rets cur) (snd a)) as [cur_n|] eqn:Eslot; [|discriminate].
+    assert (Hne : o_rets cur <> []) by (intro Hnil; rewrite Hnil in Eslot; destruct (snd a); discriminate).
+    destruct (s_val cur_n) as [v0|] eqn:Eval.
+    { injection H as <- <- <-. split; [apply frel_refl|]. split; [exact Hinv|]. split.
+      - constructor; [|constructor]. unfold aread. rewrite Ecur, Ein, Eslot. exact Eval.
+      - intros a0 [<-|[]] _. exists cur. split; [exact Ecur|]. split; [exact Hne|].
+        destruct Hinv as (_ & _ & Hd & _ & _). destruct (Hd _ _ Ecur) as ([Hdone|Hnone] & _); [exact Hdone|].
+        rewrite (op_none_val cur _ _ Hnone Eslot) in Eval. discriminate. }
+    assert (Hgo : forall l g0 e0 vs g2 e2, ginv (g_ops g0) -> go_args fu l g0 e0 = Some (vs, g2, e2) -> fpost g0 e0 g2 e2 l vs).
+    { induction l as [|x l IHl]; intros g0 e0 vs g2 e2 Hi0 Hg; simpl in Hg.
+      - injection Hg as <- <- <-. split; [apply frel_refl|]. split; [exact Hi0|]. split; [constructor|intros a0 []].
+      - destruct (fwd F fu g0 e0 x) as [[[vx g1] e1]|] eqn:Ex; [|discriminate].
+        destruct (go_args fu l g1 e1) as [[[vs' g2'] e2']|] eqn:Er; [|discriminate].
+        injection Hg as <- <- <-. pose proof (IH _ _ _ _ _ _ Hi0 Ex) as P1.
+        eapply fpost_cons; [exact P1|]. apply IHl; [|exact Er]. destruct P1 as (_ & I1 & _); exact I1. }
+    destruct (go_args fu (o_args cur) g e) as [[[vs g1] e1]|] eqn:Eg; [|discriminate].
+    destruct (Hgo _ _ _ _ _ _ Hinv Eg) as (R1 & I1 & A1 & E1). clear Hgo IH.
+    set (i := fst a) in *.
+    pose proof R1 as (Hsv1 & Hb1 & Hp1 & Hg1 & Hm1 & new1 & L1 & N1 & In1 & O1 & D1).
+    assert (Hwf : wf_ops (g_ops g)) by (destruct Hinv as (Hw & _); exact Hw).
+    assert (Hi_notin : ~ In i new1).
+    { intro Hin. destruct (In1 i Hin) as ((r & Hr & Hanc) & _). apply in_map_iff in Hr. destruct Hr as (x & <- & Hx).
+      pose proof (anc_le (g_ops g) Hwf _ _ Hanc). pose proof (Hwf i cur Ecur) as Hf. rewrite Forall_forall in Hf.
+      destruct (Hf x Hx). lia. }
+    assert (Ecur1 : nth_error (g_ops g1) i = Some cur) by (rewrite O1; auto).
+    rewrite Ecur1 in H.
+    assert (Hnone : op_none cur = true).
+    { destruct Hinv as (_ & _ & Hd & _ & _). destruct (Hd _ _ Ecur) as ([Hdone|Hnone] & _); [|exact Hnone].
+      exfalso. exact (op_done_val cur _ _ Hdone Eslot Eval). }
+    set (pos := match f_rand F (o_op cur) with Some (d, _) => e_pos e1 d | None => 0%N end).
+    set (e2 := match f_rand F (o_op cur) with Some (d, n) => bump e1 d n | None => e1 end).
+    assert (Hpair : (let '(outs, e2) := match f_rand F (o_op cur) with
+                                        | Some (d, n) => (f_fw F (o_op cur) (e_pos e1 d) vs, bump e1 d n)
+                                        | None => (f_fw F (o_op cur) 0%N vs, e1) end in
+                     match nth_error outs (snd a) with
+                     | Some v => Some (v, {| g_ops := set_nth (g_ops g1) i (set_rets cur (store_vals (o_rets cur) outs));
+                                            g_log := g_log g1 ++ [i]; g_blog := g_blog g1 |}, e2)
+                     | None => None end) =
+                    match nth_error (f_fw F (o_op cur) pos vs) (snd a) with
+                    | Some v => Some (v, {| g_ops := set_nth (g_ops g1) i (set_rets cur (store_vals (o_rets cur) (f_fw F (o_op cur) pos vs)));
+                                           g_log := g_log g1 ++ [i]; g_blog := g_blog g1 |}, e2)
+                    | None => None end).
+    { unfold pos, e2. destruct (f_rand F (o_op cur)) as [[d n]|]; reflexivity. }
+    rewrite Hpair in H. clear Hpair.
+    destruct (nth_error (f_fw F (o_op cur) pos vs) (snd a)) as [v1|] eqn:Ev1; [|discriminate].
+    injection H as <- <- <-.
+    assert (A1' : Forall2 (fun a x => aread (g_ops g1) e1 a = Some x) (o_args cur) vs).
+    { eapply Forall2_impl; [|exact A1]. intros b y. cbv beta. rewrite (aread_pval _ e1 e); auto. }
+    assert (E1' : forall b, In b (o_args cur) -> inner_of F (g_ops g1) (fst b) = None -> evald (g_ops g1) (fst b)).
+    { intros b Hb Hib. apply E1; auto. rewrite <- (sv_inner F _ _ Hsv1). exact Hib. }
+    assert (Hpos : f_rand F (o_op cur) = None -> pos = 0%N) by (intro Hr; unfold pos; rewrite Hr; reflexivity).
+    destruct (eval_step (g_ops g1) e1 i cur vs pos I1 Ecur1 Ein Hnone Hne A1' E1' Hpos) as (S2 & M2 & I2 & Ev2 & C2 & O2 & Rd2).
+    set (ops2 := set_nth (g_ops g1) i (set_rets cur (store_vals (o_rets cur) (f_fw F (o_op cur) pos vs)))) in *.
+    set (g2 := {| g_ops := ops2; g_log := g_log g1 ++ [i]; g_blog := g_blog g1 |}).
+    assert (R2 : frel g1 e1 g2 e2 [i]).
+    { unfold frel. cbn [g_ops g_log g_blog g2]. split; [exact S2|]. split; [reflexivity|].
+      split; [unfold e2; destruct (f_rand F (o_op cur)) as [[d n]|]; reflexivity|].
+      split; [unfold e2; destruct (f_rand F (o_op cur)) as [[d n]|]; reflexivity|].
+      split; [exact M2|]. exists [i]. split; [reflexivity|]. split; [repeat constructor; simpl; tauto|]. split; [|split].
+      - intros k [<-|[]]. split; [exists i; split; [left; reflexivity|apply anc_refl]|].
+        split; [unfold inner_of; rewrite Ecur1; exact Ein|]. split; [exists cur; auto|]. split; [exact Ev2|exact C2].
+      - intros k Hk. apply O2. intro; subst; apply Hk; left; reflexivity.
+      - intro d'. simpl. unfold draw_of. rewrite Ecur1. unfold e2.
+        destruct (f_rand F (o_op cur)) as [[d n]|]; cbn [bump e_pos]; [|lia].
+        rewrite (Nat.eqb_sym d d'). destruct (Nat.eqb_spec d' d) as [->|Hd]; lia. }
+    split; [|split; [exact I2|split]].
+    - eapply frel_trans; [exact R1|exact R2| |]; simpl.
+      + intros r Hr. exists i. split; [left; reflexivity|]. apply in_map_iff in Hr. destruct Hr as (x & <- & Hx).
+        eapply anc_step; [|apply anc_refl]. unfold args_of. rewrite Ecur. exact Hx.
+      + intros r [<-|[]]. exists i. split; [left; reflexivity|apply anc_refl].
+    - constructor; [|constructor]. rewrite (aread_pval _ e e1) by auto. replace a with (i, snd a) by (unfold i; destruct a; reflexivity).
+      apply Rd2. exact Ev1.
+    - intros a0 [<-|[]] _. exact Ev2.
+  Qed.
+
+  (* every non-parameter ancestor of an evaluated operator is evaluated *)
+  Lemma closed_anc (ops : ops_t) k : ginv ops -> evald ops k -> forall j, anc ops j k -> inner_of F ops j = None -> evald ops j.
+  Proof.
+    intros Hinv Hev j Ha. revert Hev. induction Ha as [k|j a k Hin Ha IH]; intros Hev Hj; auto.
+    destruct Hinv as (Hwf & Hlen & Hd & Hcl & Hia). destruct Hev as (oi & E & Hn & Hdone).
+    unfold args_of in Hin. rewrite E in Hin.
+    destruct (inner_of F ops (fst a)) as [p|] eqn:Ei.
+    - (* a parameter operator has no arguments: j is that operator itself *)
+      inversion Ha as [|? b ? Hb _]; subst; [congruence|]. exfalso.
+      unfold inner_of in Ei. unfold args_of in Hb. destruct (nth_error ops (fst a)) as [oa|] eqn:Ea; [|contradiction].
+      rewrite (Hia _ _ Ea) in Hb by congruence. contradiction.
+    - apply IH; auto. eapply Hcl; eauto.
+  Qed.
+
+  Lemma sv_slot (ops ops' : ops_t) a : sv ops = sv ops' -> get_slot_ops ops a <> None -> get_slot_ops ops' a <> None.
+  Proof.
+    intros H. unfold get_slot_ops. pose proof (sv_nth ops ops' (fst a) H) as Hk.
+    destruct (nth_error ops (fst a)) as [oi|], (nth_error ops' (fst a)) as [oi'|]; try contradiction; auto.
+    destruct Hk as (_ & _ & El & _). intros Hs Hn. apply nth_error_None in Hn. apply Hs. apply nth_error_None. lia.
+  Qed.
+
+  Lemma go_spec fu : forall l g0 e0 vs g2 e2, ginv (g_ops g0) ->
+    go_args fu l g0 e0 = Some (vs, g2, e2) -> fpost g0 e0 g2 e2 l vs.
+  Proof.
+    induction l as [|x l IHl]; intros g0 e0 vs g2 e2 Hi0 Hg; simpl in Hg.
+    - injection Hg as <- <- <-. split; [apply frel_refl|]. split; [exact Hi0|]. split; [constructor|intros a0 []].
+    - destruct (fwd F fu g0 e0 x) as [[[vx g1] e1]|] eqn:Ex; [|discriminate].
+      destruct (go_args fu l g1 e1) as [[[vs' g2'] e2']|] eqn:Er; [|discriminate].
+      injection Hg as <- <- <-. pose proof (fwd_spec _ _ _ _ _ _ _ Hi0 Ex) as P1.
+      eapply fpost_cons; [exact P1|]. apply IHl; [|exact Er]. destruct P1 as (_ & I1 & _); exact I1.
+  Qed.
+
+  (* fuel = oid + 1 is never exhausted *)
+  Lemma fwd_fuel_enough fuel : forall g e a, ginv (g_ops g) -> get_slot_ops (g_ops g) a <> None ->
+    fst a < fuel -> fwd F fuel g e a <> None.
+  Proof.
+    induction fuel as [|fu IH]; intros g e a Hinv Hslot Hlt; [lia|].
+    cbn [fwd]. fold (go_args fu). unfold get_slot_ops in Hslot.
+    destruct (nth_error (g_ops g) (fst a)) as [cur|] eqn:Ecur; [|congruence].
+    destruct (f_inner F (o_op cur)) as [p|] eqn:Ein; [discriminate|].
+    destruct (nth_error (o_rets cur) (snd a)) as [cur_n|] eqn:Eslot; [|congruence].
+    destruct (s_val cur_n); [discriminate|].
+    assert (Hgo : forall l g0 e0, ginv (g_ops g0) ->
+              Forall (fun x => fst x < fu /\ get_slot_ops (g_ops g0) x <> None) l -> go_args fu l g0 e0 <> None).
+    { induction l as [|x l IHl]; intros g0 e0 Hi0 Hl; simpl; [discriminate|].
+      inversion Hl as [|? ? (Hx1 & Hx2) Hl']; subst.
+      destruct (fwd F fu g0 e0 x) as [[[vx g1] e1]|] eqn:Ex; [|exfalso; exact (IH _ _ _ Hi0 Hx2 Hx1 Ex)].
+      destruct (fwd_spec _ _ _ _ _ _ _ Hi0 Ex) as ((Hs & _) & I1 & _).
+      destruct (go_args fu l g1 e1) as [[[vs g2] e2]|] eqn:Er; [discriminate|].
+      exfalso. apply (IHl g1 e1 I1); [|exact Er]. eapply Forall_impl; [|exact Hl']. cbv beta. intros y (Hy1 & Hy2).
+      split; auto. eapply sv_slot; [symmetry; exact Hs|exact Hy2]. }
+    destruct (go_args fu (o_args cur) g e) as [[[vs g1] e1]|] eqn:Eg.
+    2:{ exfalso. apply (Hgo (o_args cur) g e Hinv); [|exact Eg]. destruct Hinv as (Hwf & _).
+        eapply Forall_impl; [|exact (Hwf _ _ Ecur)]. cbv beta. intros x (Hx & oa & Eoa & Hv). split; [lia|].
+        unfold get_slot_ops. rewrite Eoa. intro Hn. apply nth_error_None in Hn. lia. }
+    pose proof (go_spec _ _ _ _ _ _ _ Hinv Eg) as Hgo'.
+    destruct Hgo' as ((Hs1 & _) & I1 & _).
+    pose proof (sv_nth (g_ops g1) (g_ops g) (fst a) Hs1) as Hk. rewrite Ecur in Hk.
+    destruct (nth_error (g_ops g1) (fst a)) as [cur1|] eqn:Ecur1; [|contradiction]. destruct Hk as (Eo & _ & El & _).
+    assert (Hlen : forall pos, length (f_fw F (o_op cur) pos vs) = length (o_rets cur)).
+    { intro pos. rewrite Hfw_len. destruct Hinv as (_ & Hl & _). symmetry. eauto. }
+    destruct (f_rand F (o_op cur)) as [[d n]|].
+    - destruct (nth_error (f_fw F (o_op cur) (e_pos e1 d) vs) (snd a)) eqn:En; [discriminate|].
+      apply nth_error_None in En. rewrite Hlen in En. apply nth_error_lt in Eslot. lia.
+    - destruct (nth_error (f_fw F (o_op cur) 0%N vs) (snd a)) eqn:En; [discriminate|].
+      apply nth_error_None in En. rewrite Hlen in En. apply nth_error_lt in Eslot. lia.
+  Qed.
+
+  (* ---------- Graph::forward(node): evaluates exactly the unevaluated non-parameter ancestors ---------- *)
+  Definition fexact (g : gstate) (e : env) (a : nat * nat) (v : V) (g' : gstate) (e' : env) : Prop :=
+    sv (g_ops g') = sv (g_ops g) /\ g_blog g' = g_blog g /\ e_pval e' = e_pval e /\ e_pgrad e' = e_pgrad e /\
+    mono (g_ops g) (g_ops g') /\ ginv (g_ops g') /\ aread (g_ops g') e a = Some v /\
+    exists new, g_log g' = g_log g ++ new /\ NoDup new /\
+      (forall k, In k new <-> anc (g_ops g) k (fst a) /\ inner_of F (g_ops g) k = None /\ unev (g_ops g) k) /\
+      (forall k, In k new -> computed (g_ops g') e k) /\
+      (forall k, anc (g_ops g) k (fst a) -> inner_of F (g_ops g) k = None -> evald (g_ops g') k) /\
+      (forall k, ~ In k new -> nth_error (g_ops g') k = nth_error (g_ops g) k) /\
+      (forall d, e_pos e' d = (e_pos e d + draws (g_ops g) d new)%N).
+
+  Theorem forward_exact g e a : ginv (g_ops g) -> get_slot g a <> None ->
+    exists v g' e', forward F g e a = Some (v, g', e') /\ fexact g e a v g' e'.
+  Proof.
+    intros Hinv Hslot. unfold forward. unfold get_slot in *.
+    destruct (get_slot_ops (g_ops g) a) as [s0|] eqn:Es0; [|congruence].
+    destruct (fwd F (S (fst a)) g e a) as [[[v g'] e']|] eqn:Ef.
+    2:{ exfalso. eapply fwd_fuel_enough; [exact Hinv| |apply Nat.lt_succ_diag_r|exact Ef]. rewrite Es0. discriminate. }
+    exists v, g', e'. split; [reflexivity|].
+    destruct (fwd_spec _ _ _ _ _ _ _ Hinv Ef) as (R & I' & A & Ev).
+    pose proof R as (Hsv & Hb & Hp & Hg & Hm & new & L & N & In1 & O1 & D1).
+    split; [exact Hsv|]. split; [exact Hb|]. split; [exact Hp|]. split; [exact Hg|]. split; [exact Hm|]. split; [exact I'|].
+    split; [inversion A; subst; assumption|].
+    assert (Hcomplete : forall k, anc (g_ops g) k (fst a) -> inner_of F (g_ops g) k = None -> evald (g_ops g') k).
+    { intros k Ha Hk. destruct (inner_of F (g_ops g) (fst a)) as [p|] eqn:Eroot.
+      - (* the root is a parameter operator: it has no arguments, so k is the root *)
+        exfalso. inversion Ha as [|? b ? Hbb _]; subst; [congruence|].
+        unfold inner_of in Eroot. unfold args_of in Hbb. destruct (nth_error (g_ops g) (fst a)) as [oa|] eqn:Ea; [|contradiction].
+        destruct Hinv as (_ & _ & _ & _ & Hia). rewrite (Hia _ _ Ea) in Hbb by congruence. contradiction.
+      - apply (closed_anc (g_ops g') (fst a) I').
+        + apply Ev; [left; reflexivity|exact Eroot].
+        + eapply sv_anc; [symmetry; exact Hsv|exact Ha].
+        + rewrite (sv_inner F _ _ Hsv). exact Hk. }
+    exists new. split; [exact L|]. split; [exact N|]. split; [|split; [|split; [exact Hcomplete|split; [exact O1|exact D1]]]].
+    - intro k. split.
+      + intro Hk. destruct (In1 k Hk) as ((r & [<-|[]] & Ha) & Hi & Hu & _). auto.
+      + intros (Ha & Hi & Hu). destruct (in_dec Nat.eq_dec k new) as [Hin|Hnin]; [exact Hin|]. exfalso.
+        pose proof (Hcomplete k Ha Hi) as Hev. destruct Hu as (oi & E & Hn & Hnone).
+        eapply evald_unev; [exact Hev|]. exists oi. rewrite O1; auto.
+    - intros k Hk. apply In1. exact Hk.
+  Qed.
+
+  (* ---------- ginv holds initially and is preserved by add_operator ---------- *)
+  Hypothesis Hsh_len : forall o shs rs, f_shape F o shs = Some rs -> length rs = f_retn F o.
+  Hypothesis Hinner_argn : forall o p, f_inner F o = Some p -> f_argn F o = ArgExact 0.
+
+  Lemma ginv_empty : ginv [].
+  Proof.
+    split; [|split; [|split; [|split]]]; intros k oi E; destruct k; discriminate.
+  Qed.
+
+  Lemma check_nodes_spec me (g : gstate) args ss : check_nodes me g args = Ok ss ->
+    Forall2 (fun n s => fst n = me /\ get_slot g (snd n) = Some s) args ss.
+  Proof.
+    revert ss; induction args as [|n args IH]; intros ss H; simpl in H.
+    - injection H as <-. constructor.
+    - unfold check_node in H. destruct (Nat.eqb_spec (fst n) me) as [E|N]; simpl in H; [|discriminate].
+      destruct (get_slot g (snd n)) as [s|] eqn:Es; [|discriminate].
+      destruct (check_nodes me g args) as [ss'| |]; try discriminate. injection H as <-. constructor; auto.
+  Qed.
+
+  Lemma ginv_add me g o args g' k : ginv (g_ops g) -> add_op F me g o args = Ok (g', k) -> ginv (g_ops g').
+  Proof.
+    intros (Hwf & Hlen & Hd & Hcl & Hia) H.
+    assert (Hargn : argn_ok (f_argn F o) (length args) = true).
+    { unfold add_op in H. destruct (argn_ok (f_argn F o) (length args)); [reflexivity|discriminate]. }
+    destruct (add_op_spec _ _ _ _ _ _ H) as (_ & _ & _ & oi & Eops & Eo & Ea & Hnew & ss & rs & Hc & Hs & Hm).
+    rewrite Eops. pose proof (check_nodes_spec _ _ _ _ Hc) as Hc2.
+    assert (Hold : forall j oj, nth_error (g_ops g) j = Some oj -> nth_error (g_ops g ++ [oi]) j = Some oj).
+    { intros j oj E. rewrite nth_error_app1; [exact E|eapply nth_error_lt; eauto]. }
+    assert (Hcase : forall j oj, nth_error (g_ops g ++ [oi]) j = Some oj ->
+              (nth_error (g_ops g) j = Some oj) \/ (j = length (g_ops g) /\ oj = oi)).
+    { intros j oj E. destruct (Nat.lt_ge_cases j (length (g_ops g))) as [Hlt|Hge].
+      - rewrite nth_error_app1 in E by auto. auto.
+      - rewrite nth_error_app2 in E by auto. destruct (j - length (g_ops g)) as [|m] eqn:Em; simpl in E.
+        + injection E as <-. right. split; [lia|reflexivity].
+        + destruct m; discriminate. }
+    assert (Hnone_new : op_none oi = true).
+    { unfold op_none. apply forallb_forall. intros s Hs0. rewrite Forall_forall in Hnew. destruct (Hnew s Hs0) as (Hv & _).
+      unfold has_val. rewrite Hv. reflexivity. }
+    assert (Hev_old : forall j, evald (g_ops g) j -> evald (g_ops g ++ [oi]) j).
+    { intros j (oj & E & Hn & Hdn). exists oj. auto. }
+    split; [|split; [|split; [|split]]].
+    - intros j oj E. destruct (Hcase j oj E) as [E0|(-> & ->)].
+      + eapply Forall_impl; [|exact (Hwf j oj E0)]. cbv beta. intros a (Hlt & oa & Eoa & Hv). split; auto. exists oa. auto.
+      + rewrite Ea. apply Forall_forall. intros a Hin. apply in_map_iff in Hin. destruct Hin as (n & <- & Hn).
+        destruct (Forall2_in_l _ _ _ Hc2 n Hn) as (s & _ & _ & Hg).
+        unfold get_slot, get_slot_ops in Hg. destruct (nth_error (g_ops g) (fst (snd n))) as [oa|] eqn:Eoa; [|discriminate].
+        split; [eapply nth_error_lt; eauto|]. exists oa. split; [auto|eapply nth_error_lt; eauto].
+    - intros j oj E. destruct (Hcase j oj E) as [E0|(-> & ->)]; [eauto|].
+      rewrite Eo. rewrite <- (map_length s_shape), Hm. eauto.
+    - intros j oj E. destruct (Hcase j oj E) as [E0|(-> & ->)]; [eauto|]. split; [right; exact Hnone_new|auto].
+    - intros j oj E Hn Hdn a Ha Hi. destruct (Hcase j oj E) as [E0|(-> & ->)].
+      + apply Hev_old. eapply Hcl; eauto. unfold inner_of in *.
+        pose proof (Hwf j oj E0) as Hf. rewrite Forall_forall in Hf. destruct (Hf a Ha) as (_ & oa & Eoa & _).
+        rewrite (Hold _ _ Eoa) in Hi. rewrite Eoa. exact Hi.
+      + exfalso. unfold op_done in Hdn. unfold op_none in Hnone_new. destruct (o_rets oi) as [|s r]; [congruence|].
+        simpl in *. destruct (has_val s); simpl in *; discriminate.
+    - intros j oj E Hi. destruct (Hcase j oj E) as [E0|(-> & ->)]; [eauto|].
+      rewrite Eo in Hi. destruct (f_inner F o) as [p|] eqn:Ep; [|congruence].
+      rewrite (Hinner_argn o p Ep) in Hargn. simpl in Hargn. apply Nat.eqb_eq in Hargn.
+      rewrite Ea. destruct args; [reflexivity|discriminate].
   Qed.
 End LazyProofs.
